@@ -1084,17 +1084,25 @@ func randPlan(rng *rand.Rand, nl, n int) []act {
 	}
 	for i := 0; i < n; i++ {
 		switch x := rng.Intn(114); {
-		case x >= 110 && next <= maxCalls:
+		case x >= 108 && next <= maxCalls:
 			// a submitter with an already ended context that is slow to look at it, on a lane that has
 			// just answered another call: by then its own answer (or skip) is there too
 			h := pool[rng.Intn(len(pool))]
+			if rng.Intn(2) == 0 {
+				// a submitter slow to look at its context whose call was accepted and answered and whose
+				// executor was stopped (and has drained) before it looks: result and shutdown are both there
+				out = append(out, act{Op: "inv", C: next, H: h, Slow: true, Fail: rng.Intn(3) == 0}, act{Op: "end", C: next},
+					act{Op: "stopi"}, act{Op: "done", C: next})
+				next++
+				break
+			}
 			if rng.Intn(2) == 0 && next+1 <= maxCalls {
 				out = append(out, act{Op: "inv", C: next, H: h, Fail: rng.Intn(2) == 0}, act{Op: "end", C: next})
 				next++
 			}
 			out = append(out, act{Op: "inv", C: next, H: h, Pre: true, Slow: true}, act{Op: "end", C: next}, act{Op: "done", C: next})
 			next++
-		case x >= 106:
+		case x >= 105:
 			out = append(out, act{Op: "done"})
 		case x >= 103:
 			out = append(out, act{Op: "cfg"})
